@@ -738,13 +738,18 @@ func TestVerifC01(t *testing.T) {
 			if i%5 == 4 { // every combination of MTU: also MTUs (re)configured with data already queued
 				p.name, p.setmtu = p.name+"+mtu-change", 6
 			}
+			if i%10 == 7 {
+				// messages larger than the receiver's window are outside the documented contract (B8: they
+				// strand) - what the reader is handed must still be whole messages in order, never a part
+				p.name, p.overWnd, p.stall = "message-larger-than-window", true, 60
+			}
 			return p
 		},
 		nontriv: func(info coreCaseInfo, s *coreSim) bool {
 			return info.retrans && (info.dupDelivered || info.reordered) && len(s.delivered[0])+len(s.delivered[1]) > 0
 		},
 		after: func(s *coreSim, rng *vrng, p coreProfile) {
-			if rng.chance(50) {
+			if !p.overWnd && rng.chance(50) {
 				s.healAndCheck(400000, rng.chance(30))
 			}
 		},
